@@ -143,9 +143,9 @@ func (c *Ctx) assert(cond *Term, msg string) {
 		c.addPC(cond)
 		return
 	}
-	ex.stat.Obligations++
+	c.st.Obligations++
 	if cond.IsTrue() {
-		ex.stat.Discharged++
+		c.st.Discharged++
 		ex.noteObligation(c, msg, "trivially-true")
 		return
 	}
@@ -164,18 +164,18 @@ func (c *Ctx) assert(cond *Term, msg string) {
 		}
 	}
 	if m == nil {
-		res, m, note = ex.Solver.Check(q, true)
-		ex.stat.AssertQueries++
+		res, m, note = c.S.Check(q, true)
+		c.st.AssertQueries++
 	}
 	switch res {
 	case Unsat:
-		ex.stat.Discharged++
+		c.st.Discharged++
 		ex.noteObligation(c, msg, "unsat")
 		if len(regions) > 0 {
 			// is the known region still violating here?
 			for _, r := range regions {
 				q2 := append(append([]*Term{}, c.pc...), neg, r.term)
-				r2, m2, _ := ex.Solver.Check(q2, true)
+				r2, m2, _ := c.S.Check(q2, true)
 				if r2 == Sat {
 					ex.noteKnown(r.kf, c, m2)
 				}
@@ -185,7 +185,7 @@ func (c *Ctx) assert(cond *Term, msg string) {
 		ex.noteObligation(c, msg, "sat")
 		ex.noteViolation(c, "assert:"+msg, msg, m)
 	default:
-		ex.stat.Inconclusive++
+		c.st.Inconclusive++
 		ex.noteInconclusive(fmt.Sprintf("assert %q: solver unknown %s", msg, note))
 	}
 	// continue under the assumption that the assertion held
